@@ -349,6 +349,7 @@ func c11(c *Ctx) {
 
 	// ---------------------------------------------------------------- C11.isolation
 	c11Isolation(c)
+	idZeroRule(c, "C11.idzero", func(rel string) bool { return rel == "keyset" })
 }
 
 func f2bool(f guard.Fact) bool {
@@ -1283,6 +1284,33 @@ func c11IDs(c *Ctx, methods []*ssa.Function) {
 		if !done {
 			r.AnchorMissing("C11.ids", "store to fixedID in WithFixedID")
 		}
+		// the option takes effect whenever it succeeds: every success return is
+		// dominated by the stores fixedID = id and hasFixedID = true (no ID value,
+		// 0 included, is treated as "none given")
+		allSet := true
+		nRet := 0
+		for _, ret := range guard.SuccessReturns(cl) {
+			nRet++
+			idSet, flagSet := false, false
+			allInstrs(cl, func(ins ssa.Instruction) {
+				_, field, val, ok := guard.StoreField(ins)
+				if !ok || !(ins.Block() == ret.Block() || ins.Block().Dominates(ret.Block())) {
+					return
+				}
+				if field == "fixedID" {
+					idSet = true
+				}
+				if field == "hasFixedID" {
+					if b, isC := guard.ConstBool(val); isC && b {
+						flagSet = true
+					}
+				}
+			})
+			if !idSet || !flagSet {
+				allSet = false
+			}
+		}
+		r.Check(allSet && nRet > 0, "C11.ids", "C11.ids/keyset.WithFixedID/takes effect", p.FuncPos(cl), "WithFixedID can succeed without fixing the ID (some ID value is treated as 'none given'): the key then gets a random ID instead of the requested one", "every success return dominated by fixedID = id and hasFixedID = true")
 	}
 	// (f) Add passes the ID as ID requirement unless RAW
 	for _, m := range methods {
